@@ -263,6 +263,7 @@ pub fn plan(prop: &str, tier: Tier) -> Option<Plan> {
             s3::add_grids(&mut p, q, false);
             s2::add_long_fields(&mut p, q, &BACKENDS, &[]);
             s2::add_page_boundary_sweep(&mut p, q, &BACKENDS, &[]);
+            s2::add_long_fields_huge_remainder(&mut p, q, &BACKENDS, &[]);
             s2::add_token_grids(&mut p, q, true, true, true);
             s2::add_header_count_sweep(&mut p, q);
             s2::add_line_strings(&mut p, q, &all_config_lanes(), &[2]);
@@ -276,6 +277,7 @@ pub fn plan(prop: &str, tier: Tier) -> Option<Plan> {
             s2::add_field_prefix_sweep(&mut p, q, &BACKENDS);
             s2::add_long_fields(&mut p, q, &BACKENDS, &[]);
             s2::add_page_boundary_sweep(&mut p, q, &BACKENDS, &[]);
+            s2::add_long_fields_huge_remainder(&mut p, q, &BACKENDS, &[]);
         }
         "C03" => {
             p.armed = O_FRAMING;
@@ -287,6 +289,7 @@ pub fn plan(prop: &str, tier: Tier) -> Option<Plan> {
             s2::add_template_mutations(&mut p, q, &[Backend::Native]);
             s2::add_long_fields(&mut p, q, &BACKENDS, &[]);
             s2::add_page_boundary_sweep(&mut p, q, &BACKENDS, &[]);
+            s2::add_long_fields_huge_remainder(&mut p, q, &BACKENDS, &[]);
             s2::add_token_grids(&mut p, q, true, true, true);
             s2::add_header_count_sweep(&mut p, q);
             s2::add_line_strings(&mut p, q, &all_config_lanes(), &[2]);
@@ -301,6 +304,7 @@ pub fn plan(prop: &str, tier: Tier) -> Option<Plan> {
             s8::add_families(&mut p, q);
             s2::add_long_fields(&mut p, q, &BACKENDS, &[]);
             s2::add_page_boundary_sweep(&mut p, q, &BACKENDS, &[]);
+            s2::add_long_fields_huge_remainder(&mut p, q, &BACKENDS, &[]);
             s2::add_token_grids(&mut p, q, true, true, true);
             s2::add_header_count_sweep(&mut p, q);
             s2::add_line_strings(&mut p, q, &all_config_lanes(), &[2]);
@@ -316,6 +320,7 @@ pub fn plan(prop: &str, tier: Tier) -> Option<Plan> {
             s2::add_utf8_sweep(&mut p, q, &BACKENDS);
             s2::add_long_fields(&mut p, q, &BACKENDS, &[]);
             s2::add_page_boundary_sweep(&mut p, q, &BACKENDS, &[]);
+            s2::add_long_fields_huge_remainder(&mut p, q, &BACKENDS, &[]);
             s2::add_token_grids(&mut p, q, true, true, true);
             s2::add_header_count_sweep(&mut p, q);
             s2::add_line_strings(&mut p, q, &all_config_lanes(), &[2]);
@@ -347,6 +352,7 @@ pub fn plan(prop: &str, tier: Tier) -> Option<Plan> {
             s2::add_templates_for(&mut p, q, &BACKENDS, "request");
             s2::add_long_fields(&mut p, q, &BACKENDS, &["method", "target"]);
             s2::add_page_boundary_sweep(&mut p, q, &BACKENDS, &["method", "target"]);
+            s2::add_long_fields_huge_remainder(&mut p, q, &BACKENDS, &["method", "target"]);
             s2::add_token_grids(&mut p, q, true, false, false);
         }
         "C07" => {
@@ -375,6 +381,7 @@ pub fn plan(prop: &str, tier: Tier) -> Option<Plan> {
             s2::add_templates_for(&mut p, q, &BACKENDS, "response");
             s2::add_long_fields(&mut p, q, &BACKENDS, &["reason"]);
             s2::add_page_boundary_sweep(&mut p, q, &BACKENDS, &["reason"]);
+            s2::add_long_fields_huge_remainder(&mut p, q, &BACKENDS, &["reason"]);
             s2::add_token_grids(&mut p, q, false, true, false);
         }
         "C08" => {
@@ -398,6 +405,7 @@ pub fn plan(prop: &str, tier: Tier) -> Option<Plan> {
             s2::add_templates_for(&mut p, q, &BACKENDS, "headers");
             s2::add_long_fields(&mut p, q, &BACKENDS, &["header-name", "header-value"]);
             s2::add_page_boundary_sweep(&mut p, q, &BACKENDS, &["header-name", "header-value"]);
+            s2::add_long_fields_huge_remainder(&mut p, q, &BACKENDS, &["header-name", "header-value"]);
         }
         "C09" => {
             p.armed = O_LANG | O_FRAMING;
@@ -410,6 +418,7 @@ pub fn plan(prop: &str, tier: Tier) -> Option<Plan> {
             s2::add_pair_sweeps(&mut p, q, &[Backend::Native], &["chunk-ext"]);
             s2::add_long_fields(&mut p, q, &[Backend::Native], &["chunk-ext"]);
             s2::add_page_boundary_sweep(&mut p, q, &[Backend::Native], &["chunk-ext"]);
+            s2::add_long_fields_huge_remainder(&mut p, q, &[Backend::Native], &["chunk-ext"]);
         }
         "C10" => {
             p.armed = O_ERRKIND;
@@ -419,6 +428,7 @@ pub fn plan(prop: &str, tier: Tier) -> Option<Plan> {
             s2::add_line_strings(&mut p, q, &all_config_lanes(), &[2]);
             s2::add_long_fields(&mut p, q, &BACKENDS, &[]);
             s2::add_page_boundary_sweep(&mut p, q, &BACKENDS, &[]);
+            s2::add_long_fields_huge_remainder(&mut p, q, &BACKENDS, &[]);
             s2::add_token_grids(&mut p, q, true, true, true);
         }
         "C11" => {
@@ -430,8 +440,10 @@ pub fn plan(prop: &str, tier: Tier) -> Option<Plan> {
             s2::add_field_prefix_sweep(&mut p, q, &[Backend::Native]);
             s2::add_long_fields(&mut p, q, &[Backend::Native], &[]);
             s2::add_page_boundary_sweep(&mut p, q, &[Backend::Native], &[]);
+            s2::add_long_fields_huge_remainder(&mut p, q, &[Backend::Native], &[]);
             s2::add_token_grids(&mut p, q, true, true, true);
             s2::add_line_strings(&mut p, q, &all_config_lanes(), &[2]);
+            s8::add_families(&mut p, q);
             s2::add_chunk_sweeps(&mut p, q);
         }
         "C14" => {
@@ -462,6 +474,7 @@ pub fn plan(prop: &str, tier: Tier) -> Option<Plan> {
             s2::add_option_templates(&mut p, q);
             s2::add_long_fields(&mut p, q, &BACKENDS, &["header-name", "header-value", "dropped-line"]);
             s2::add_page_boundary_sweep(&mut p, q, &BACKENDS, &["header-name", "header-value", "dropped-line"]);
+            s2::add_long_fields_huge_remainder(&mut p, q, &BACKENDS, &["header-name", "header-value", "dropped-line"]);
             s2::add_field_sweeps(&mut p, q, &BACKENDS, &["dropped-line"]);
             s2::add_token_grids(&mut p, q, false, false, true);
             s2::add_line_strings(&mut p, q, &all_config_lanes(), &[1, 4]);
@@ -546,6 +559,7 @@ pub fn plan(prop: &str, tier: Tier) -> Option<Plan> {
             s8::add_families(&mut p, q);
             s2::add_long_fields(&mut p, q, &[Backend::Native], &[]);
             s2::add_page_boundary_sweep(&mut p, q, &[Backend::Native], &[]);
+            s2::add_long_fields_huge_remainder(&mut p, q, &[Backend::Native], &[]);
             s2::add_token_grids(&mut p, q, true, true, true);
             s2::add_header_count_sweep(&mut p, q);
         }
@@ -557,6 +571,7 @@ pub fn plan(prop: &str, tier: Tier) -> Option<Plan> {
             s8::add_scaling(&mut p, q);
             s2::add_long_fields(&mut p, q, &[Backend::Native], &[]);
             s2::add_page_boundary_sweep(&mut p, q, &[Backend::Native], &[]);
+            s2::add_long_fields_huge_remainder(&mut p, q, &[Backend::Native], &[]);
             s2::add_token_grids(&mut p, q, true, true, true);
             s2::add_header_count_sweep(&mut p, q);
         }
